@@ -424,35 +424,37 @@ Definition pos_ltb (a b : pos) : bool :=
 Definition union_start (a b : pos) : pos := if pos_ltb a b then a else b.
 Definition union_end (a b : pos) : pos := if pos_ltb b a then a else b.
 
+Definition pending_is_minus (pending : option tok) : bool :=
+  match pending with Some q => is_minus q | None => false end.
+
 (* process_raw_token + the pending slot of next_token; [out] is reversed.
-   pending = None only before the first processed token. *)
+     if i64 > MAX+1 || (i64 == MAX+1 && !matches!(pending, Some(Operator(Minus)))) { report }
+     else if i64 == MAX+1 && let Some(Token(prev_loc, Operator(Minus))) = &pending { merge; return None }
+   (s.parse::<i64>() fails exactly when the value exceeds i64::MAX, which is reported with the
+   same message, so the model compares the unbounded value) *)
 Fixpoint produce (ts : list tok) (pending : option tok) (out : list tok) (errs : list lexerr)
   : list tok * list lexerr :=
   match ts with
   | [] => (rev (match pending with Some t => t :: out | None => out end), errs)
   | t :: ts' =>
-    let yield_ (t' : tok) (errs' : list lexerr) :=
-      produce ts' (Some t') (match pending with Some q => q :: out | None => out end) errs' in
+    let out' := match pending with Some q => q :: out | None => out end in
     match t_kind t with
     | KInt =>
       let v := dec_value (t_raw t) 0 in
-      if (MAXI32_PLUS1 <? v)%N
-         || ((v =? MAXI32_PLUS1)%N && match pending with None => true | Some _ => false end)
-      then yield_ t (errs ++ [ENotInt32 (t_start t) (t_end t)])
+      if (MAXI32_PLUS1 <? v)%N || ((v =? MAXI32_PLUS1)%N && negb (pending_is_minus pending))
+      then produce ts' (Some t) out' (errs ++ [ENotInt32 (t_start t) (t_end t)])
       else if (v =? MAXI32_PLUS1)%N then
         match pending with
         | Some q =>
-          if is_minus q then
-            (* merge `-` and 2147483648: pending := IntLiteral("-2147483648") at the union *)
-            produce ts'
-              (Some (mkTok KInt (union_start (t_start q) (t_start t)) (union_end (t_end q) (t_end t))
-                           (t_off q) (45%N :: t_raw t)))
-              out errs
-          else yield_ t errs
-        | None => yield_ t errs
+          (* merge `-` and 2147483648: pending := IntLiteral(-2147483648) at the union *)
+          produce ts'
+            (Some (mkTok KInt (union_start (t_start q) (t_start t)) (union_end (t_end q) (t_end t))
+                         (t_off q) (45%N :: t_raw t)))
+            out errs
+        | None => produce ts' (Some t) out' errs        (* unreachable: pending is a minus here *)
         end
-      else yield_ t errs
-    | _ => yield_ t errs
+      else produce ts' (Some t) out' errs
+    | _ => produce ts' (Some t) out' errs
     end
   end.
 
